@@ -212,7 +212,10 @@ def run(ctx: Ctx):
             hi, lo = max(temps), min(temps)
             z = pr["streams"][0]["zone"]
             for k in range(ctx.rng.choice([1, 2])):
-                d = ctx.rng.choice([0.05, 0.3, 0.5, 0.02])
+                # small against the plant (a few 1e-6 of the total duty: inside any RELATIVE tolerance of 1e-5) but
+                # well above the absolute display resolution the comparison allows
+                tot = sum(abs(st["heat_flow"]) for st in pr["streams"])
+                d = max(0.05, tot * ctx.rng.choice([3e-6, 5e-6, 8e-6])) if ctx.rng.random() < 0.7 else ctx.rng.choice([0.05, 0.3, 0.5, 0.02])
                 if ctx.rng.random() < 0.5:
                     pr["streams"].append({"name": f"tiny{k}", "zone": z, "t_supply": hi + 20.0, "t_target": hi + 30.0, "heat_flow": d, "dt_cont": 5.0, "htc": 1.0})
                 else:
